@@ -13,6 +13,39 @@ import pathlib as _pathlib
 import types as _types
 
 
+class MaskedStr(str):
+    """text that shows itself masked: str(x), format(x) and repr(x) are not its content"""
+
+    def __str__(self):
+        return "*" * len(self)
+
+    def __format__(self, spec):
+        return format("*" * len(self), spec)
+
+    def __repr__(self):
+        return "MaskedStr(" + "*" * len(self) + ")"
+
+
+class IntLike:
+    """an integer object that is not an int: only __index__ (as numpy / ctypes fixed-width integers are to slicing)"""
+
+    def __init__(self, n):
+        self._n = n
+
+    def __index__(self):
+        return self._n
+
+    def __repr__(self):
+        return f"IntLike({self._n})"
+
+
+def int_forms(n):
+    """the same integer as an int, a bool-free IntEnum member and an __index__-only object"""
+    if n is None:
+        return [None]
+    return [n, _enum.IntEnum("Len", {"N": n}).N, IntLike(n)]
+
+
 class _ForeignEnum(_enum.Enum):
     VISA = 1
     MASTERCARD = 2
@@ -175,9 +208,17 @@ class G:
         return " ".join(digits[i:i + 2] for i in range(0, len(digits), 2))
 
     def form(self, s):
-        """str or ASCII bytes form of a text value"""
-        if s is None or self.R.random() < .5:
+        """str or ASCII bytes form of a text value; now and then a str subclass whose own rendering differs
+        from its content (a self-masking PAN / PIN type) or a str-mixin Enum member"""
+        if s is None:
             return s
+        c = self.R.random()
+        if c < .47:
+            return s
+        if c < .5:
+            return MaskedStr(s)
+        if c < .52 and s.isidentifier() is False and s != "":
+            return _enum.Enum("TextValue", {"V": s}, type=str).V
         return s.encode()
 
 
